@@ -149,7 +149,7 @@ class ColumnContainer(ABC):
         container : `ColumnExpressionSequence`
             Container expression object backed by the given items.
         """
-        return ColumnExpressionSequence(items, dtype)
+        return ColumnExpressionSequence(tuple(items), dtype)
 
 
 @dataclasses.dataclass(frozen=True)
